@@ -47,6 +47,15 @@ type Options struct {
 
 func env() []string {
 	e := os.Environ()
+	// go/packages shells out to `go`: make sure it is the toolchain that accepts the module's go line
+	const tc = "/opt/veriftools/go1.26.8/bin"
+	if _, err := os.Stat(tc + "/go"); err == nil {
+		for i, kv := range e {
+			if strings.HasPrefix(kv, "PATH=") && !strings.HasPrefix(kv, "PATH="+tc) {
+				e[i] = "PATH=" + tc + ":" + strings.TrimPrefix(kv, "PATH=")
+			}
+		}
+	}
 	e = append(e, "GOFLAGS=-mod=mod", "GOPROXY=off", "GOSUMDB=off", "GOTOOLCHAIN=local", "GOWORK=off")
 	return e
 }
